@@ -222,6 +222,11 @@ func runC09(w *World, r *Report) {
 		undecidedf("C09.atomic-consistent: no field accessed through sync/atomic found")
 	}
 
+	r.Rule("C09.lock-released", "every path from a Lock / RLock to a return of the same function unlocks the mutex or has a deferred Unlock registered (a leaked lock blocks every other run using the object)", 5)
+	if n := ruleLockReleased(w, r, "C09.lock-released", map[string]string{}, "compose", "schema", "internal", "callbacks", "flow", "components", "utils"); n == 0 {
+		undecidedf("C09.lock-released: no Lock call found")
+	}
+
 	r.Rule("C09.append-alias", "append on a slice held in a shared object is stored back to the same field or starts from a fresh slice", 1)
 	armedOwners := map[*types.Named]bool{}
 	for t := range compiled {
